@@ -173,6 +173,11 @@ def classify_exception(mod, case, err):
     """
     from .vloop import HarnessError
     if isinstance(err, HarnessError):
+        # keep the case for debugging the harness
+        d = os.path.join(VERIF_DIR, 'replays', mod.ID)
+        os.makedirs(d, exist_ok=True)
+        with open(os.path.join(d, 'harness_error_' + case_hash(case)[:12] + '.json'), 'w') as f:
+            json.dump({'property': mod.ID, 'harness_error': repr(err), 'case': case}, f, default=repr)
         raise err
     tb = traceback.extract_tb(err.__traceback__)
     innermost = None
